@@ -12,7 +12,7 @@ from verif.specs import sx
 from verif.specs.sx import X
 
 LEVEL = 'other'
-EXPECTED_MIN = {'quick': 7, 'thorough': 7}
+EXPECTED_MIN = {'quick': 15, 'thorough': 19}
 EXPLANATION = ('PROVED (exact normal form; normalize / orthogonals / signed_angle used through contracts): inverse(world_to_joint(forward(q, qd))) returns q for a free link, a single '
                'slide and a single hinge (world-attached and under a free parent), every model parameter symbolic -- for the hinge the proof shows that signed_angle is called with '
                '(sin q, cos q) exactly (double-angle polynomials of the half-angle pair), and the axiom atan2(sin q, cos q) = q on (-pi, pi) closes it; joint velocities round-trip for '
@@ -168,6 +168,99 @@ def _native_roundtrip(xml, tries=20):
   return {'reproduced': False}
 
 
+def frame_contract(word, perm, signs, tiers):
+  """link_to_joint_frame on a stack `word` whose axes are the columns perm (with signs) of R(p): every branch of the axis-frame construction (joint kind, count,
+  handedness, zero axes) must return orthonormal frames that carry each dof's own axis in its slot"""
+  tag = '%s,axes=%s' % (word, ''.join(('+' if sg > 0 else '-') + 'xyz'[k] for k, sg in zip(perm, signs)))
+
+  def run():
+    from verif.engine.opaque import cut
+    from brax import kinematics
+    from brax.base import Motion
+    A = RingAlg()
+    p = A.arr('p', (4,))
+    A.unit(list(p))
+    R = sx.qmat([X(e, A) for e in p])
+    cols = [[R[r][k].v for r in range(3)] for k in range(3)]
+    n = len(word)
+    axes = [[A.mul(sg, e) for e in cols[k]] for k, sg in zip(perm[:n], signs[:n])]
+    ang = np.zeros((n, 3), dtype=object)
+    vel = np.zeros((n, 3), dtype=object)
+    for k, c in enumerate(word):
+      (ang if c == 'h' else vel)[k] = axes[k]
+    for k in range(n):
+      A.hint_or([(axes[k][i], 'ne', 0) for i in range(3)], True, 'unit axis')
+    # any() over several axes at once (is_translational / is_universal / is_both): true as soon as one of the rows is a unit axis
+    import itertools
+    for kind_rows in ([k for k, c in enumerate(word) if c == 'h'], [k for k, c in enumerate(word) if c == 's']):
+      if kind_rows:
+        A.hint_or([(axes[k][i], 'ne', 0) for k in kind_rows for i in range(3)], True, 'some unit axis among the rows')
+
+    def h_orth(I, P, ins):
+      a = I.lift(ins[0])
+      rows = a.reshape((-1, 3))
+      b_out, c_out = np.empty(rows.shape, dtype=object), np.empty(rows.shape, dtype=object)
+      for k, row in enumerate(rows):
+        if all(isc(e) and e == 0 for e in row):
+          b_out[k], c_out[k] = [0, 0, 0], [0, 0, 0]
+          continue
+        hit = None
+        for kk in range(3):
+          for sg in (1, -1):
+            if all(A.is_zero(A.sub(row[i], A.mul(sg, cols[kk][i]))) for i in range(3)):
+              # (a, b, c) right-handed orthonormal with a = sg*col_kk : b = col_(kk+1), c = sg*col_(kk+2) (one admissible completion; a different completion is covered by p being arbitrary)
+              hit = (cols[(kk + 1) % 3], [A.mul(sg, e) for e in cols[(kk + 2) % 3]])
+        if hit is None:
+          raise RuntimeError('orthogonals called on a vector that is not a declared axis')
+        b_out[k], c_out[k] = hit
+      return [b_out.reshape(a.shape), c_out.reshape(a.shape)]
+    with cut('brax.math:orthogonals', 'brax.math:normalize'):
+      I = Interp(A, cuts={'brax.math:orthogonals': h_orth, 'brax.math:normalize': cuts.normalize_ring})
+      (fa, fv), parity = sym_call(I, lambda a_, v_: (lambda o: ((o[0].ang, o[0].vel), o[1]))(kinematics.link_to_joint_frame(Motion(ang=a_, vel=v_))), Sym(ang), Sym(vel))
+    res = []
+    eye = np.array([[1 if i == j else 0 for j in range(3)] for i in range(3)], dtype=object)
+
+    def gram(F):
+      G = np.empty((3, 3), dtype=object)
+      for i in range(3):
+        for j in range(3):
+          acc = 0
+          for c in range(3):
+            acc = A.add(acc, A.mul(F[i][c], F[j][c]))
+          G[i][j] = acc
+      return G
+    # a frame is only used for the joint kinds present in the stack (a pure-hinge 3-dof stack leaves the translational frame unused, and vice versa)
+    if 'h' in word or len(word) < 3:
+      res.append(ring_equal(A, gram(fa), eye, name='ang frame orthonormal'))
+    if 's' in word or len(word) < 3:
+      res.append(ring_equal(A, gram(fv), eye, name='vel frame orthonormal'))
+    # handedness of the declared axes: +1 right-handed, -1 left-handed (the third frame row of a pure 3-dof stack is row0 x row1 = handed * axis_2)
+    perm_sign = 1 if tuple(perm) in ((0, 1, 2), (1, 2, 0), (2, 0, 1)) else -1
+    handed = perm_sign * int(np.prod(signs))
+    for k, c in enumerate(word):
+      sgn = handed if (k == 2 and word in ('hhh', 'sss')) else 1
+      want_row = np.array([A.mul(sgn, e) for e in axes[k]], dtype=object)
+      if c == 'h':
+        res.append(ring_equal(A, fa[k], want_row, name='ang frame row %d = %shinge axis' % (k, 'handedness * ' if sgn < 0 else '')))
+      else:
+        res.append(ring_equal(A, fv[k], want_row, name='vel frame row %d = %sslide axis' % (k, 'handedness * ' if sgn < 0 else '')))
+    # parity = handedness of the rotational frame: det(ang frame) * parity = +1 when all three rows are hinge axes
+    if word == 'hhh':
+      Xs = lambda v: [X(e, A) for e in v]
+      det = sx.dot(sx.cross(Xs(fa[0]), Xs(fa[1])), Xs(fa[2])).v
+      par = parity.item() if is_sym(parity) else A.const(float(np.asarray(parity)), 'f')
+      res.append(ring_equal(A, np.array([par, det], dtype=object), np.array([handed, 1], dtype=object), name='parity = handedness of the axes; frame right-handed'))
+    r = combine(res)
+    r.stats['branch_hints'] = sorted({'%s := %s' % (h[0], h[1]) for h in A.hints_used})[:8]
+    if r.verdict == REFUTED:
+      rb = bounded('quick').run()
+      r.replay = rb.replay or {'reproduced': rb.verdict == REFUTED}
+    return r
+  return Obligation('C08/link_to_joint_frame/frames[%s]' % tag, 'brax.kinematics:link_to_joint_frame', 'for a stack of this joint-kind word with mutually orthogonal unit axes (either handedness; the axes are signed columns '
+                    'of an arbitrary rotation): the rotational and translational 3-frames returned are orthonormal and carry every dof\'s own axis in that dof\'s slot (all branches on joint kind / '
+                    'count / zero axes resolved under this precondition)', run, backend='ring', tiers=tiers, budget=600)
+
+
 def step_structure(pipeline):
   def run():
     import importlib
@@ -288,6 +381,10 @@ def obligations(tier):
   Q, Th = ('quick', 'thorough'), ('thorough',)
   obs = [roundtrip('', 'root', Q), roundtrip('h', 'root', Q), roundtrip('s', 'root', Q), roundtrip('h', 'free', Q), roundtrip('s', 'free', Q),
          step_structure('spring'), step_structure('positional'), bounded(tier)]
+  for word, perm, signs, t in [('hh', (0, 1, 2), (1, 1, 1), Q), ('ss', (1, 2, 0), (1, -1, 1), Q), ('sh', (0, 1, 2), (1, 1, 1), Q), ('hs', (2, 0, 1), (-1, 1, 1), Q), ('hhh', (0, 1, 2), (1, 1, 1), Q),
+                                ('hhh', (1, 0, 2), (1, 1, 1), Q), ('sss', (0, 1, 2), (1, 1, -1), Q), ('ssh', (0, 1, 2), (1, 1, 1), Q), ('sh', (2, 1, 0), (1, -1, 1), Th), ('hh', (1, 0, 2), (-1, 1, 1), Th),
+                                ('shs', (0, 1, 2), (1, 1, 1), Th), ('hss', (0, 1, 2), (1, 1, 1), Th)]:
+    obs.append(frame_contract(word, perm, signs, t))
 
   def canary():
     # q round trip claimed for a hinge with the WRONG sign convention (signed_angle args = (-sin q, cos q)) must be refuted
